@@ -1800,8 +1800,10 @@ impl FunctionDef {
                     local_bindings.insert(fn_name.clone(), this_value);
                 }
 
-                // Preserve inputs if present in parent
-                if let Some(inputs) = bindings.get("inputs") {
+                // Preserve inputs if present in parent (captured inputs take precedence)
+                if !scope.contains_key("inputs")
+                    && let Some(inputs) = bindings.get("inputs")
+                {
                     local_bindings.insert(String::from("inputs"), inputs);
                 }
 
